@@ -238,6 +238,7 @@ func FactsC04(f *hc.Facts) {
 	f.Bool("decryptSideFlips", strings.Contains(f.FuncSrc("crypto", "Side.DecryptSide"), "return s ^ 1"), "Side.DecryptSide = s ^ 1")
 	// layouts: structured (interpreted by the model) and as call-order strings (pinned in Props)
 	FactsC04Layout(f)
+	FactsC04Msg(f)
 	f.Raw("def dataEncodeOrder : List String := " + strList(callSeq(f, "crypto", "EncryptedMessageData.Encode", "b")) + " -- EncryptedMessageData.Encode")
 	f.Raw("def dataDecodeOrder : List String := " + strList(decodeSeq(f, "crypto", "EncryptedMessageData.DecodeWithoutCopy")) + " -- EncryptedMessageData.DecodeWithoutCopy")
 	f.Raw("def msgEncodeOrder : List String := " + strList(callSeq(f, "crypto", "EncryptedMessage.Encode", "b")) + " -- EncryptedMessage.Encode")
